@@ -31,6 +31,7 @@ type ValueReader struct {
 
 func (h *ValueReader) borrowValueReader() *ValueReader {
 	x, ok := h.pool.Get().(*ValueReader)
+	x, ok = verifPoolGet(h, x, ok)
 	if !ok {
 		x = &ValueReader{
 			depth: h.depth + 1,
@@ -43,6 +44,9 @@ func (h *ValueReader) borrowValueReader() *ValueReader {
 
 func (h *ValueReader) returnValueReader(x *ValueReader) {
 	x.arrVal = x.arrVal[:0]
+	if verifPoolPut(h, x) {
+		return
+	}
 	h.pool.Put(x)
 }
 
